@@ -236,6 +236,54 @@ def main():
                 ndiff += 1
                 if first_diff is None: first_diff = ("LEDGER", j, "op %d '%s'" % (k, o), "class-A planner reported a pair that is not an accepted motion")
             else: pred(j, "admission rule rejects the report of op %d '%s': %s" % (k, o, v))
+    # ---- (c) resumed solves of geometric::RRT against RrtModel.rrt_calls: 2-4 solve() calls on one planner without clear(), each with
+    #      its own scripted samples and goal-bias tape; the final tree (bit for bit) and the report of every call must agree
+    import struct, math
+    try:
+        rdrv = c.build_driver("rrt_driver", link_ompl=True)
+    except vf.BuildError as ex:
+        c.broken.append("correspondence C03: rrt_driver does not build against /repo: " + str(ex)[-300:]); c.finish()
+    rng2 = c.rng
+    def coord(grid): return rng2.choice([-1.0, -0.5, -0.25, 0.0, 0.25, 0.5, 0.75, 1.0, 1.25]) if grid else round(rng2.uniform(-1.5, 1.5), 3)
+    rlines = []
+    for i in range(250 if quick else 8000):
+        grid = rng2.random() < 0.35
+        walls = [(coord(grid), lo, lo + rng2.choice([0.25, 0.5, 1.0, 3.0])) for _ in range(rng2.choice([0, 1, 1, 2])) for lo in [coord(grid)]]
+        starts = [(coord(grid), coord(grid)) for _ in range(rng2.choice([1, 1, 2]))]; g = (coord(grid), coord(grid))
+        calls = []
+        for _ in range(rng2.choice([2, 2, 3, 4])):
+            pts = [(coord(grid), coord(grid)) for _ in range(rng2.choice([0, 2, 6, 15]))]
+            if pts and rng2.random() < 0.3: pts[rng2.randrange(len(pts))] = g
+            calls.append("%d %d P %d %s" % (rng2.choice([0, 1, 4, 10, 25]), rng2.randint(0, 10 ** 6), len(pts), " ".join("%r %r" % q for q in pts)))
+        rlines.append("RRTN %g %g %g W %d %s S %d %s G %r %r C %d %s" % (rng2.choice([0.1, 0.3, 0.5, 1.0, 10.0]), rng2.choice([0.0, 0.05, 0.25, 0.5]), rng2.choice([0.05, 0.2, 0.5]),
+                      len(walls), " ".join("%r %r %r" % w for w in walls), len(starts), " ".join("%r %r" % q for q in starts), g[0], g[1], len(calls), " ".join(calls)))
+    rcr, orr, err_, srr = vf.sh([rdrv], input="\n".join(rlines) + "\n", timeout=900); c.step("correspond:impl-rrt-resume", rdrv, srr, rcr == 0)
+    rcq, oq, eq, sq = vf.sh([model, "rrt"], input="\n".join(rlines) + "\n", timeout=900); c.step("correspond:model-rrt-resume", model + " rrt", sq, rcq == 0)
+    il, ml = [l for l in orr.split("\n") if l.startswith("rrtn ")], [l for l in oq.split("\n") if l.startswith("rrtn ")]
+    def flb(h): return struct.unpack("<d", struct.pack("<Q", int(h, 16)))[0]
+    def canon_rrtn(l):
+        parts = [x.strip() for x in l.split("|")]
+        return [("1 0 -" if x.startswith("1 0 ") else x) for x in parts]       # the difference of an exact solution is not recorded by the problem definition
+    rrtn_stats = collections.Counter()
+    for k, rl in enumerate(rlines):
+        a = il[k] if k < len(il) else "<no output>"; b = ml[k] if k < len(ml) else "<no output>"
+        if canon_rrtn(a) != canon_rrtn(b):
+            ndiff += 1
+            if first_diff is None: first_diff = ("RRT resumed", rl, a[:300], b[:300])
+        try:    # every call's path: from a start, along tree motions of the final tree
+            parts = [x.strip() for x in a.split("|")]
+            nodes = [(flb(t.split()[0]), flb(t.split()[1]), int(t.split()[2])) for t in parts[0].split(";")[1:] if t.strip()]
+            edges = set((nodes[p][:2], (x, y)) for (x, y, p) in nodes if p >= 0); roots = set((x, y) for (x, y, p) in nodes if p < 0)
+            for q in range(1, len(parts), 2):
+                rep = parts[q].split()
+                rrtn_stats["none" if rep[0] != "1" else ("exact" if rep[1] == "0" else "approximate")] += 1
+                if rep[0] == "1":
+                    path = [(flb(t.split()[0]), flb(t.split()[1])) for t in parts[q + 1].split(";") if t.strip()]
+                    if not path or path[0] not in roots or any((u, v) not in edges for u, v in zip(path, path[1:])):
+                        pred(rl, "resumed geometric::RRT: the path reported by call %d is not a chain of tree motions from a start state" % ((q + 1) // 2))
+        except Exception as ex:
+            pred(rl, "resumed geometric::RRT: no observation (%s) %s" % (ex, a[:80]))
+    c.cov.update({"rrt_resumed_scripts": len(rlines), "rrt_resumed_reports": dict(rrtn_stats)})
     c.cov.update({"evaluations": len(script) + stats["solves"], "traces_validated_against_impl": nscripts + stats["histories"], "distinct_nontrivial": stats["histories"],
                   "rule": "(a) %d random scripts over 1-3 problem definitions (0-4 starts, 0-3 goal states, invalid / out-of-bounds ones included) with USE / CLEAR / RESTART / NEXTSTART / NEXTGOAL / ADDSTART / MORE* operations, compared exactly; (b) %d histories over %d planners: interrupt ladder S0 S<k> (condition true at evaluation k) then resume, clear + same query, clear + new query, new query without clear, clearQuery, getPlannerData, plus random histories (thorough), on allocation-counting R2 / SE2 / R3 spaces with gap / thin-wall / box / circle maps; non-trivial = history that ran to completion" % (nscripts, len(hists), len(PLANNERS)),
                   "disagreements": ndiff, "predicate_failures": npred, "predicate_failures_by_kind": dict(failures), "failing_histories": failing[:40], "status_histogram": dict(stats), "max_further_evaluations_by_planner": dict(further_max), "skipped": skipped})
